@@ -489,6 +489,84 @@ def classes():
     return {name: CLASSES[name] for name, _ in GENERATORS if name in CLASSES}
 
 
+# ------------------------------------------------------------------------------------------------
+# values the text spelling cannot carry
+# ------------------------------------------------------------------------------------------------
+# The constructors accept any string for a component value, but the composers write it verbatim: a value that is
+# empty, contains the list/pair separator, a blank or a quote cannot be told apart from syntax once it is on the wire.
+# Objects carrying one of these literals are reported under their own key (`unrepresentable-value:<Class>`), so that
+# every OTHER round-trip failure of the same class stays a violation.
+AMBIGUOUS_LITERALS = {
+    '', 'a b', 'utf-8;', 'with space', 'semi;colon', '/a b', '/a;b', '/trailing/ ', 'a"b', 'q"uote', '"quoted"', 'trailing ',
+    'a  b', 'https://example.com/r;a=1', 'https://example.com/r?a=1,2', 'https://example.com/#', 'https://example.com/?',
+    'example.com.', 'x=y', 'a=b',
+}
+
+
+def _strings(obj, depth=0, seen=None):
+    import attr
+    if seen is None:
+        seen = set()
+    if id(obj) in seen or depth > 6:
+        return
+    seen.add(id(obj))
+    if isinstance(obj, str):
+        yield obj
+        return
+    if isinstance(obj, (bytes, bytearray, int, float, bool)) or obj is None:
+        return
+    if type(obj).__name__ == 'Base64Data':
+        yield str(obj)          # an empty base64 value is spelled as the empty string
+        return
+    if type(obj).__module__.startswith('urllib3'):
+        yield str(obj)
+        for part in obj:
+            if isinstance(part, str):
+                yield part
+        return
+    if isinstance(obj, dict):
+        for k, v in obj.items():
+            for x in _strings(k, depth + 1, seen):
+                yield x
+            for x in _strings(v, depth + 1, seen):
+                yield x
+        return
+    is_array = False
+    try:
+        from cryptoparser.common.base import ArrayBase
+        is_array = isinstance(obj, ArrayBase)
+    except ImportError:
+        pass
+    if isinstance(obj, (list, tuple, set, frozenset)) or is_array:    # never iterate arbitrary iterables (ip networks!)
+        try:
+            for item in list(obj)[:50]:
+                for x in _strings(item, depth + 1, seen):
+                    yield x
+        except Exception:  # pylint: disable=broad-except
+            pass
+        return
+    if attr.has(type(obj)):
+        for f in attr.fields(type(obj)):
+            try:
+                v = getattr(obj, f.name)
+            except Exception:  # pylint: disable=broad-except
+                continue
+            for x in _strings(v, depth + 1, seen):
+                yield x
+    elif hasattr(obj, '__dict__'):
+        for v in vars(obj).values():
+            for x in _strings(v, depth + 1, seen):
+                yield x
+
+
+def is_ambiguous(obj):
+    """does the object carry a value the spelling cannot represent (see AMBIGUOUS_LITERALS)"""
+    for text in _strings(obj):
+        if text in AMBIGUOUS_LITERALS or text != text.strip(' \t') or '/a;b' in text or 'r;a=1' in text or 'a=1,2' in text:
+            return True
+    return False
+
+
 if __name__ == '__main__':
     import random
     from harness import canon
